@@ -850,7 +850,7 @@ class Engine:
         if self.spec:
             raise Unsupported("specification refers to unknown name %r" % name)
         self.oblige("safe", z3.BoolVal(False), "name %r is bound" % name, assume_after=False)
-        raise PyRaise(ExcV(NameError, (name,)))
+        raise PyRaise(ExcV(NameError, (name,), {"reported": True}))
 
     def global_value(self, ent, rel):
         tag = ent[0]
